@@ -499,6 +499,14 @@ func (g *fGen) fmtFamily() {
 		m := g.name("g")
 		g.add(fmt.Sprintf("func %s(n int, s string, c bool, t string) string {\n\treturn fmt.Sprintf(%s(n, s, c, t), n, s) + \"|\" + fmt.Sprintf(%q)\n}\n", m, n, g.format()))
 	}
+	if g.chance(0.4) {
+		// variadic calls with the same number of operands before and after a call of a user function that makes
+		// variadic calls of its own (straight-line: no label in between)
+		g.hit("fmt:variadic-calls-around-a-user-call")
+		m := g.name("v")
+		ops := []string{"", ", n", ", n, s", ", s, n, c", ", t, c, n, s"}[g.pick(5)]
+		g.add(fmt.Sprintf("func %s(n int, s string, c bool, t string) string {\n\ta := fmt.Sprintf(\"<%%v|%%v|%%v|%%v>\"%s)\n\tb := %s(n, s, c, t)\n\treturn a + b + fmt.Sprintf(\"[%%v;%%v;%%v;%%v]\"%s)\n}\n", m, ops, n, ops))
+	}
 }
 
 // stringsFamily: the strings / strconv natives at the corners of their argument space.
